@@ -133,6 +133,7 @@ class Scheduler(object):
         self._since_switch = 0
         self.fair_quantum = 2500
         self.fair_switches = 0
+        self.preempt_horizon = 10.0
         self.point_hook = None  # optional callable(sched, vthread) at every point
 
     # ------------------------------------------------------------------ util
@@ -243,10 +244,15 @@ class Scheduler(object):
         self.run_left = None
         cands = [t for t in self.threads if t.enabled and not t.done and t is not me]
         if self.clock_mode == "preempt":
+            # only timers due "soon": far-away deadlines are the harness' way of
+            # saying "never fires in this program"
             timed = [
                 t
                 for t in self.threads
-                if not t.done and not t.enabled and t.deadline is not None
+                if not t.done
+                and not t.enabled
+                and t.deadline is not None
+                and t.deadline <= self.now + self.preempt_horizon
             ]
             if timed:
                 cands.append(min(timed, key=lambda t: (t.deadline, t.tid)))
@@ -560,6 +566,8 @@ class CLock(object):
             return True
         s.point()
         me = s.cur
+        if self.owner is not None and self.owner.sched is not s:
+            self.owner = None  # left over from an aborted run (module-level lock)
         while self.owner is not None:
             if not blocking:
                 return False
@@ -629,6 +637,9 @@ class CRLock(object):
             self.count += 1
             return True
         s.point()
+        if self.owner is not None and self.owner.sched is not s:
+            self.owner = None  # left over from an aborted run (module-level lock)
+            self.count = 0
         while self.owner is not None:
             if not blocking:
                 return False
